@@ -376,6 +376,7 @@ theorem runB_pageOps (fmt : R → List UInt8) (pages : List (PageB R)) :
     leaf of page `k` under `k + 1`, its resources and content stream under `n + 2 + 2k` and `n + 3 + 2k`, the catalog
     under `3n + 2` — the number the trailer names as `/Root` -/
 theorem prepared_changes (fmt : R → List UInt8) (pages : List (PageB R)) (info : Option (Prim R)) :
+    (prepared fmt pages info).doc.st.refs.length = 3 * pages.length + 3 ∧
     chLookup (prepared fmt pages info).doc.st.changes (3 * pages.length + 2) = some (catalogVal (pages.length + 1), 0) ∧
     chLookup (prepared fmt pages info).doc.st.changes (pages.length + 1) = some (treeVal (List.range' 1 pages.length), 0) ∧
     ∀ k p, pages[k]? = some p →
@@ -428,7 +429,7 @@ theorem prepared_changes (fmt : R → List UInt8) (pages : List (PageB R)) (info
     rw [hprep, e2]; simp only [create, alloc, chLookup_chInsert, hm.len]
     have : pages.length + 2 + 2 * pages.length = 3 * pages.length + 2 := by omega
     rw [this]
-  refine ⟨by rw [hch, if_pos rfl], by rw [hch, if_neg (by omega)]; exact hm.tree, ?_⟩
+  refine ⟨by rw [hprep, e2]; simp [create, alloc, hm.len]; omega, by rw [hch, if_pos rfl], by rw [hch, if_neg (by omega)]; exact hm.tree, ?_⟩
   intro k p hp
   have hk : k < pages.length := (List.getElem?_eq_some_iff.mp hp).1
   obtain ⟨d1, d2, d3⟩ := hm.done k p hk hp
